@@ -99,8 +99,17 @@ Definition asn_parse_length (b : buf) (p : Z) : res (Z * Z) :=
          Ok (p + n + 1, v)
   else Ok (p + 1, lb).
 
+(* asn_header_fits(data, datalength): the identifier octet and the whole length field lie inside datalength bytes;
+   checked by every reader before it looks at them *)
+Definition asn_header_fits (b : buf) (p dl : Z) : res bool :=
+  if dl <? 2 then Ok false else
+  do x <- rd b (p + 1);
+  if negb (Z.land x asn_long_len =? 0) then Ok (2 + Z.land x (255 - asn_long_len) <=? dl) else Ok true.
+
 (* asn_parse_header(data, &datalength, &type): result = (contents pointer, new datalength, type) *)
 Definition asn_parse_header (b : buf) (p dl : Z) : res (Z * Z * Z) :=
+  do fits <- asn_header_fits b p dl;
+  if negb fits then Fail else
   do t <- rd b p;                                               (* IS_EXTENSION_ID( *bufp ) *)
   if Z.land t asn_extension_id =? asn_extension_id then Fail else
   do '(p', alen) <- asn_parse_length b (p + 1);
@@ -114,6 +123,8 @@ Fixpoint int_bytes (b : buf) (p : Z) (n : nat) (v : Z) : res Z :=
 
 (* asn_parse_int(data, &datalength, &type, intp, sizeof(int)): (next, datalength, type, value) *)
 Definition asn_parse_int (b : buf) (p dl : Z) : res (Z * Z * Z * Z) :=
+  do fits <- asn_header_fits b p dl;
+  if negb fits then Fail else
   do t <- rd b p;                                               (* *type = *bufp++; *)
   do '(p', alen) <- asn_parse_length b (p + 1);
   if dl <? alen + (p' - p) then Fail else                       (* asn_length + (bufp - data) > *datalength (long) *)
@@ -125,6 +136,8 @@ Definition asn_parse_int (b : buf) (p dl : Z) : res (Z * Z * Z * Z) :=
 
 (* asn_parse_unsigned_int(...): the value is stored into a u_int *)
 Definition asn_parse_unsigned_int (b : buf) (p dl : Z) : res (Z * Z * Z * Z) :=
+  do fits <- asn_header_fits b p dl;
+  if negb fits then Fail else
   do t <- rd b p;
   do '(p', alen) <- asn_parse_length b (p + 1);
   if dl <? alen + (p' - p) then Fail else
@@ -145,6 +158,8 @@ Definition rd_range (b : buf) (p n : Z) : res unit :=
    destination array, [keep] = whether the model materialises the copied bytes (only the community is looked at
    later). Result (next, datalength, type, length, bytes). *)
 Definition asn_parse_string (keep : bool) (b : buf) (p dl cap dcap : Z) : res (Z * Z * Z * Z * list Z) :=
+  do fits <- asn_header_fits b p dl;
+  if negb fits then Fail else
   do t <- rd b p;
   do '(p', alen) <- asn_parse_length b (p + 1);
   if dl <? alen + (p' - p) then Fail else
@@ -183,6 +198,8 @@ Fixpoint objid_loop (b : buf) (fuel : nat) (p length objlen oidx ocap : Z) (acc 
 
 (* asn_parse_objid(data, &datalength, &type, objid, &objidlength): result (next, datalength, type, sub-ids, count) *)
 Definition asn_parse_objid (b : buf) (p dl objlen ocap : Z) : res (Z * Z * Z * list Z * Z) :=
+  do fits <- asn_header_fits b p dl;
+  if negb fits then Fail else
   do t <- rd b p;
   do '(p', alen) <- asn_parse_length b (p + 1);
   if dl <? alen + (p' - p) then Fail else
